@@ -317,3 +317,49 @@ def type_parameters(run):
                   '[supp bindings %r]\n%s' % (got, text), path=path)
             core.RUN.concretise = None
     core.explore(lambda: None, lambda p, out: go(p))
+
+
+COMP_PROGRAMS = [
+    # (label, program; every read of it succeeds under CPython, which the harness first checks by running it)
+    ('read-before-a-comprehension-with-the-same-variable', 'x = 1\ndef f():\n    print(x)\n    return [x for x in range(3)]\nf()\n'),
+    ('read-before-a-comprehension-that-only-binds', 'x = 1\ndef f():\n    r = x\n    return [0 for x in range(3)], r\nf()\n'),
+    ('generator-dict-and-set-comprehensions', 'k = v = 1\ndef f():\n    a = k, v\n    return {k: v for k, v in [(1, 2)]}, {k for k in (1,)}, list(v for v in (2,)), a\nf()\n'),
+    ('nested-function-reads-the-enclosing-variable', 'def outer():\n    y = 1\n    def inner():\n        r = y\n        return [y for y in range(2)], r\n    return inner()\nouter()\n'),
+    ('lambda-reads-the-module-variable', 'z = 1\nfn = lambda: (z, [z for z in range(2)])\nfn()\n'),
+    ('conditional-expression-whose-test-binds', 'def f():\n    r = w if (w := 1) else 0\n    return r, w\nf()\n'),
+    ('conditional-expression-whose-test-binds-at-module-level', 'r = u if (u := 1) else 0\nprint(r, u)\n'),
+]
+
+
+@harness(['C01', 'C05'], 'supp.linter.lint [reads that succeed under CPython: comprehension variables and tests that bind]',
+         bounded='7 programs, each first run under CPython: a name read in a function before a comprehension whose variable has the same name '
+                 '(list / set / dict / generator, nested function, lambda), and conditional expressions whose test binds what the first arm reads')
+def reads_that_succeed(run):
+    """BOUNDED: C01's own oracle on programs whose reads all succeed at run time - lint reports no Undefined / UNKNOWN name for them.  The
+    variable of a comprehension belongs to the comprehension: it does not make the name a local of the function around it.  Not counted as
+    proved."""
+    import io
+    import contextlib
+    import supp.linter as L
+    import supp.project as Pj
+
+    def go(path):
+        for label, text in COMP_PROGRAMS:
+            try:
+                with contextlib.redirect_stdout(io.StringIO()):
+                    exec(compile(text, '<c01>', 'exec'), {})
+                ran = True
+            except Exception as e:
+                ran = 'raised %s' % type(e).__name__
+            prove('%s:runs-under-cpython' % label, ran is True, kind='lemma', clause='the witness program runs without a NameError [%r]' % (ran,), path=path)
+            if ran is not True:
+                continue
+            got = [d[:4] for d in L.lint(Pj.Project(['/nonexistent']), text) if d[0] in ('E02', 'E42')]
+            if got:
+                core.RUN.concretise = lambda model, ob, text=text: {'input': text, 'script': (
+                    'import sys; sys.path.insert(0, %r)\nfrom supp.linter import lint\nfrom supp.project import Project\ntext = %r\nexec(compile(text, "<w>", "exec"), {})\n'
+                    'r = [d[:4] for d in lint(Project(["/nonexistent"]), text) if d[0] in ("E02", "E42")]\n'
+                    'print("REPRODUCED: the program runs, lint reports %%r" %% (r,) if r else "not reproduced")\n') % (core.REPO, text)}
+            prove('%s:no-undefined-name-for-a-read-that-succeeds' % label, not got, clause='lint reports %r for\n%s' % (got, text), path=path)
+            core.RUN.concretise = None
+    core.explore(lambda: None, lambda p, out: go(p))
